@@ -121,6 +121,7 @@ class Unit:
                         drop=self.drop, local_types=self.local_types)
         interp.on_yield = self.on_yield
         interp.relpath = self.relpath
+        interp.unit_node = node
         self._last_interp = interp
         b = Builder(interp)
         b.node = node
